@@ -507,7 +507,7 @@ func runC12Loads(ctx *core.Ctx) {
 		}
 	}
 	// seeded random
-	for i, n := 0, ctx.Pick(1500, 40000); i < n; i++ {
+	for i, n := 0, ctx.Pick(800, 40000); i < n; i++ {
 		a := loadArgs{Attr: c12LoadAttrs[rng.Intn(len(c12LoadAttrs))], S: c12LoadShapes[rng.Intn(len(c12LoadShapes))], Origin: c12Origins[rng.Intn(len(c12Origins))],
 			Dir: c12PlainDirs[rng.Intn(len(c12PlainDirs))], Dir2: c12PlainDirs2[rng.Intn(3)], Wd: c12WdShapes[rng.Intn(len(c12WdShapes))], MainDir: "proj", Off: rng.Intn(4) == 0}
 		if rng.Intn(4) == 0 {
